@@ -977,6 +977,10 @@ BF_gensalt (char subtype, unsigned long count,
 
   BF_encode (&output[7], aligned_rbytes, 16);
   output[7 + 22] = '\0';
+
+  /* crypt_gensalt_rn erases the random bytes it obtained from the
+     operating system; do not leave our aligned copy of them behind.  */
+  explicit_bzero (aligned_rbytes, sizeof aligned_rbytes);
 }
 #endif
 
